@@ -154,6 +154,25 @@ def gen_input(rng, family, dim, periodic, nmax=40):
             g1[a] = anchor[a] + width[a] * ((0.05 + 0.25 * rng.unit()) if hi else (0.7 + 0.25 * rng.unit()))
         gens = [g0, g1] + [rnd_pt() for _ in range(rng.range(0, 2))]
         rng.shuffle(gens)
+    elif family == "clump":
+        # a generator with a few very close neighbours on one side only and a few distant generators: after the close neighbours are clipped
+        # the cell is still open towards the walls (or the padded walls of a periodic box), and the next candidates are much farther away
+        g = [anchor[a] + width[a] * (0.3 + 0.4 * rng.unit()) for a in range(3)]
+        gens = [g]
+        axes = list(range(dim))
+        rng.shuffle(axes)
+        d = rng.choice([0.01, 0.003, 0.03])
+        for a in axes[:rng.choice([dim, dim, rng.range(1, dim)])]:
+            q = list(g)
+            q[a] += d * width[a] * rng.choice([1.0, -1.0])
+            gens.append(q)
+        for _ in range(rng.range(0, 3)):
+            for _ in range(50):
+                x = rnd_pt()
+                if max(abs(x[a] - g[a]) / width[a] for a in range(dim)) > 0.25:
+                    gens.append(x)
+                    break
+        rng.shuffle(gens)
     elif family == "offlattice":
         # exact lattices (simple cubic / body centred) in boxes far from the origin, offsets of mixed sign: every decision is a tie whose
         # plane equation has large cancelling terms (n.p small, |n|.|p| large)
